@@ -18,6 +18,7 @@ from harness.pfmt import Arg, Opt, Skel
 PROPERTY = "C05"
 FUNCTIONS = ["DefaultArgsParser.__init__/parse (+ everything it calls)", "ArgvArgs.__init__/tokens", "StringArgs.tokens", "ArgsFormat listings"]
 PART = {}
+EXTRA_BOUNDS = 'also: the same RawArgs/ArgsFormat objects parsed twice in any two modes (second also with the mode left out); empty command line after any two-token line; 4 formats built on the fly and dropped on one long-lived parser; ArgvArgs() on sys.argv; declared-elements oracle for the format and its base chain.'
 BOUNDS = {"quick": "histories of 2 parses (2 tokens from a 5-literal menu, then 2 tokens from a 4-literal menu observed in strict mode) over 5 format pairs incl. same-names/different-flags; 3-parse histories (1+1+2 tokens) over 2 pairs; non-mutation with 2 symbolic tokens <= 2 chars",
           "thorough": "same shapes over a 7-literal menu for every token (observed parse strict, first parse either leniency), 8 format pairs, 3-parse histories over 4 pairs"}
 OUTSIDE = ["histories of 4-6 parses (property says 6): a parser's only carried state is what the last parses left in _arguments/_options (and any cache a change might add), which 2-3 parses already exercise",
